@@ -824,6 +824,8 @@ func (s *State) diffRoutes(al, bl []*cmd, diff []edit.Range) {
 					// destination. Remove and add routes in one transaction.
 					s.addToplevel("no " + del.orig + "\n" + add)
 					del.needed = true
+					// Route on device can be removed only once.
+					delete(delDst, dstOfRoute(c))
 				} else {
 					s.addToplevel(add)
 				}
